@@ -1752,7 +1752,7 @@ pub fn main(tier: Tier) -> i32 {
     let coverage = json!({
         "evaluations": outcome.results.len(),
         "distinct_nontrivial": shapes.len(),
-        "rule": "one evaluation = one call of create_shader_module_embedded on a generated program (call-graph families: value/void/mixed chains, diamonds, fan-out, layered DAGs with calls in if/loop/continuing/switch/nested blocks/expressions; type-graph families: nested structs, arrays of arrays of structs, shared deep types; flat size controls), with and without validation, under a virtual clock of hook ticks and the budget 4*L^2+10000; distinct_nontrivial = distinct family parameter sets with depth >= 8",
+        "rule": "one evaluation = one call of create_shader_module_embedded on a generated program (call-graph families: value/void/mixed chains, diamonds, fan-out, layered DAGs with calls in if/loop/continuing/switch/nested blocks/expressions; type-graph families: nested structs, arrays of arrays of structs, shared deep types; flat size controls; declaration chains, wide and kernel-library programs, chains and diamonds under many entry points with a global per level, expression shapes, many bind groups, huge literals, rejected programs at size), with and without validation, under one of four option sets chosen by the source, under two virtual clocks: hook ticks (budget 4*L^2+10000) and heap allocations (budget 4*L^2+400*L+2000000), plus a CPU-time line per case; distinct_nontrivial = distinct family parameter sets with depth >= 8",
         "samples": samples,
         "exhaustive": false,
         "systematic_cases": systematic_families().len() * 2,
